@@ -152,8 +152,7 @@ HandleResp(a, b, rt, c) ==
 \*                   (candidates: orphanage or uncle), else as uncle while an uncle slot is free; none to
 \*                   every peer that is still a friend.
 Sought(a) == IF role[a] = {"seed"} THEN "root" ELSE "seed"
-Seeks(a, b, t) ==
-  LET L == loc[a] IN
+SeeksL(L, a, b, t) ==
   IF IsRoot(role[a])
   THEN \/ t = "friend" /\ IsRoot(view[a][b]) /\ L.ct[b] # "friend"
        \/ t = "none" /\ L.ct[b] = "friend" /\ ~IsRoot(view[a][b]) /\ IsSeed(view[a][b])
@@ -166,6 +165,7 @@ Seeks(a, b, t) ==
              /\ CountL(L, a, "uncle") < LimUncle
              /\ L.ct[b] \in (IF Sought(a) = "seed" THEN {"none"} ELSE {"none", "uncle"})
 
+Seeks(a, b, t) == SeeksL(loc[a], a, b, t)
 \* peers the discover loop closes: a root closes a friend known as neither root nor seed; the others
 \* close parents and uncles that are not known to hold the sought role
 DiscoverCloses(a, b) ==
@@ -173,8 +173,13 @@ DiscoverCloses(a, b) ==
   ELSE loc[a].ct[b] \in {"parent", "uncle"} /\ Sought(a) \notin view[a][b]
 \* what one discover tick of node a would do in the current state (a request also needs the peer to be
 \* neither in transit nor rejected: transitPeer)
+\* (a node that is not root first turns its friends into orphans -- request none -- and then looks for
+\* parents and uncles among the orphans, the former friends included)
+Demoted(a) == IF IsRoot(role[a]) THEN loc[a]
+              ELSE [loc[a] EXCEPT !.ct = [b \in Nodes |-> IF loc[a].ct[b] = "friend" THEN "none" ELSE loc[a].ct[b]]]
 Tick(a) == [req |-> {<<b, t>> \in Peers(a) \X {"friend", "parent", "uncle", "none"} :
-                       /\ b \notin closed[a] /\ Seeks(a, b, t)
+                       /\ b \notin closed[a]
+                       /\ IF t = "none" THEN Seeks(a, b, t) ELSE SeeksL(Demoted(a), a, b, t)
                        /\ (t # "none" => (b \notin loc[a].trans /\ b \notin loc[a].rej))},
             close |-> {b \in Peers(a) : b \notin closed[a] /\ DiscoverCloses(a, b)}]
 
